@@ -3,10 +3,10 @@ package main
 import "strings"
 
 // Fault enumeration (C07, C13, C20): for a fault-free base history every single fault
-// (function x {error, panic, error wrapping a foreign dig error} x {first execution, first two, always}) is enumerated; the
+// (function x {error, panic, error wrapping a foreign dig error, panic with such an error} x {first execution, first two, always}) is enumerated; the
 // history is followed by two more rounds of all its Invokes (retries).
 
-const faultSlots = 144 // 16 functions x 9 faults per base history
+const faultSlots = 192 // 16 functions x 12 faults per base history
 
 func genFaultEnum(kind string, seed int64, idx int) *Case {
 	prof := kind[len("faultenum:"):]
@@ -25,13 +25,16 @@ func genFaultEnum(kind string, seed int64, idx int) *Case {
 			targets = append(targets, op.Fn)
 		}
 	}
-	fnSlot, fm := slot/9, slot%9
+	fnSlot, fm := slot/12, slot%12
 	if fnSlot >= len(targets) {
 		return nil
 	}
 	f := h.Fns[targets[fnSlot]]
 	fk := "err"
 	switch {
+	case fm >= 9:
+		// a panic whose value is an error wrapping another container's dig error
+		fk = "panicdigerr"
 	case fm >= 6:
 		// an error that wraps another container's dig error
 		fk = "digerr"
